@@ -110,6 +110,8 @@ def generic(eng, st: State, src: SV, e, gen, kind: str, mode: str) -> list[Res]:
         ety = strip_opt(src.ty).args[0]
         items = z3.Select(st.heap["t_item" if sk == "tuple" else "l_item"], a)
         ln = st.t_len(a) if sk == "tuple" else st.l_len(a)
+        if sk == "tuple" and src.aux is not None:
+            items, ln = src.aux
         st.assume(ln >= 0)
         j = z3.Const(f"j!c{e.lineno}", I)
         b = target_bind(gen.target, None, None, SV(z3.Select(items, j), ety))
@@ -144,12 +146,19 @@ def generic(eng, st: State, src: SV, e, gen, kind: str, mode: str) -> list[Res]:
                                                 z3.And(0 <= z3.Select(pos, j), z3.Select(pos, j) < r_len,
                                                        z3.Select(idx, z3.Select(pos, j)) == j)),
                                 patterns=[z3.Select(items, j)]))
+            # derived membership characterisation when element and condition depend on the index only through the element
+            if rv.t.eq(z3.Select(items, j)):
+                v = z3.Const(f"v!c{e.lineno}", Val)
+                cond_v = z3.substitute(cond, (z3.Select(items, j), v))
+                if not eng.mentions(cond_v, j):
+                    st.assume(z3.ForAll([v], tmem(r_items, r_len, v) == z3.And(tmem(items, ln, v), cond_v),
+                                        patterns=[tmem(r_items, r_len, v)]))
             st.ghost.setdefault("filters", []).append(dict(src=src, items=items, ln=ln, r_items=r_items, r_len=r_len,
                                                            idx=idx, pos=pos, cond=(j, cond), line=e.lineno))
         if kind == "tuple":
             r = st.new_tuple(r_items, r_len)
             st.assume(tmem_intro(r_items, r_len))
-            return [Res(st, SV(vref(r), TUP(rv.ty)))]
+            return [Res(st, SV(vref(r), TUP(rv.ty), (r_items, r_len)))]
         r = st.new_list(r_items, r_len)
         return [Res(st, SV(vref(r), LIST(rv.ty)))]
     raise Untranslatable(f"comprehension over {src.ty}")
